@@ -296,10 +296,12 @@ structure Inv (st : St) : Prop where
   trace : TraceOk st.log
   /-- the chain is in binding order -/
   order : (keys st.list).Sublist (bindOrder st.log)
+  /-- the owner is referenced and not destroyed -/
+  alive : 1 ≤ st.refs ∧ st.dead = false
 
 theorem Inv.init : Inv St.init := by
   refine ⟨by simp [St.init], by simp [St.init], by simp [St.init], by simp [St.init], by simp [St.init], by simp [St.init],
-    by simp [St.init], by simp [St.init], by simp [St.init], ?_, by simp [St.init, TraceOk], by simp [St.init, bindOrder]⟩
+    by simp [St.init], by simp [St.init], by simp [St.init], ?_, by simp [St.init, TraceOk], by simp [St.init, bindOrder], by simp [St.init]⟩
   intro k
   simp [St.init, liveKey, liveAt, boundIn]
 
@@ -312,15 +314,20 @@ theorem evOk_of_key_none {e : Ev} (h : e.key? = none) (pre : List Ev) : EvOk e p
 theorem affects_none_of_key_none {e : Ev} (h : e.key? = none) : e.affects = none := by
   cases e <;> simp_all [Ev.key?, Ev.affects]
 
+/-- Changing the reference count (to something positive) changes nothing else. -/
+theorem Inv.of_refs {st : St} (h : Inv st) (n : Nat) (hn : 1 ≤ n) : Inv { st with refs := n } :=
+  ⟨h.keysNodup, h.keysLt, h.idsUnique, h.idsPos, h.liveFn, h.tombIter, h.slotPos, h.logKeys, h.boundInfo, h.liveIff, h.trace,
+    h.order, hn, h.alive.2⟩
+
 /-- Recording an event that changes no binding's liveness (handler entry/exit, action and occurrence brackets),
     together with changes of the iteration flags that keep `tombIter`. -/
-theorem Inv.of_push {st st' : St} (h : Inv st) (hl : st'.list = st.list) (hs : st'.slotIds = st.slotIds)
+theorem Inv.of_push {st st' : St} (h : Inv st) (hr : st'.refs = st.refs ∧ st'.dead = st.dead) (hl : st'.list = st.list) (hs : st'.slotIds = st.slotIds)
     {e : Ev} (hlog : st'.log = e :: st.log) (haff : e.affects = none)
     (hk : ∀ k, e.key? = some k → k < st.slotIds.length) (hok : EvOk e st.log)
     (ht : ∀ b ∈ st.list, b.id = TOMBSTONE → st'.isIter = true ∧ st'.needsDelete = true) : Inv st' := by
   refine ⟨by rw [hl]; exact h.keysNodup, by rw [hl, hs]; exact h.keysLt, by rw [hl]; exact h.idsUnique,
     by rw [hl]; exact h.idsPos, by rw [hl]; exact h.liveFn, by rw [hl]; exact ht, by rw [hs]; exact h.slotPos, ?_, ?_, ?_, ?_,
-    by rw [hl, hlog, bindOrder_cons_of_affects_none _ haff]; exact h.order⟩
+    by rw [hl, hlog, bindOrder_cons_of_affects_none _ haff]; exact h.order, by rw [hr.1, hr.2]; exact h.alive⟩
   · intro e' he' k hk'
     rw [hlog] at he'; rw [hs]
     rcases List.mem_cons.1 he' with rfl | he'
@@ -371,7 +378,7 @@ theorem Inv.flags_of_boundIn {st : St} (h : Inv st) {b : Node} (hb : b ∈ st.li
 
 /-- Tombstoning a live node (`id := TOMBSTONE`, possibly clearing `evindex` and `fn`) together with recording the
     event `e` that kills it in the trace. -/
-theorem Inv.of_kill {st st' : St} (h : Inv st) {b : Node} (hb : b ∈ st.list) (hlive : b.id ≠ TOMBSTONE)
+theorem Inv.of_kill {st st' : St} (h : Inv st) (hr : st'.refs = st.refs ∧ st'.dead = st.dead) {b : Node} (hb : b ∈ st.list) (hlive : b.id ≠ TOMBSTONE)
     {f : Node → Node} (hf : ∀ a, (f a).key = a.key ∧ (f a).id = TOMBSTONE ∧ (f a).flags = a.flags)
     (hl : st'.list = modifyKey st.list b.key f) (hs : st'.slotIds = st.slotIds)
     {e : Ev} (hlog : st'.log = e :: st.log) (hekey : e.key? = some b.key) (haff : e.affects = some b.key)
@@ -387,7 +394,7 @@ theorem Inv.of_kill {st st' : St} (h : Inv st) {b : Node} (hb : b ∈ st.list) (
     · exact ⟨a, ha, Or.inr ⟨by simp [hak], hak⟩⟩
     · exact ⟨a, ha, Or.inl ⟨by simp [hak], hak⟩⟩
   refine ⟨by rw [hl, keys_modifyKey _ _ _ hfk]; exact h.keysNodup, ?_, ?_, ?_, ?_, ?_, by rw [hs]; exact h.slotPos, ?_, ?_, ?_, ?_,
-    by rw [hl, hlog, hbo, keys_modifyKey _ _ _ hfk]; exact h.order⟩
+    by rw [hl, hlog, hbo, keys_modifyKey _ _ _ hfk]; exact h.order, by rw [hr.1, hr.2]; exact h.alive⟩
   · intro x hx
     obtain ⟨a, ha, (⟨rfl, _⟩ | ⟨rfl, _⟩)⟩ := hmem x hx
     · rw [hs]; exact h.keysLt _ ha
@@ -455,14 +462,14 @@ theorem not_liveAt_fire_oneshot {log : List Ev} (ht : TraceOk log) {k o : Nat} {
   exact hf ho ⟨o, List.mem_cons_self ..⟩
 
 /-- Delivering to a binding that is not one-shot: the list is unchanged, the ghost `fire` is recorded. -/
-theorem Inv.of_fire_keep {st st' : St} (h : Inv st) {b : Node} (hb : b ∈ st.list) (hlive : b.id ≠ TOMBSTONE)
+theorem Inv.of_fire_keep {st st' : St} (h : Inv st) (hr : st'.refs = st.refs ∧ st'.dead = st.dead) {b : Node} (hb : b ∈ st.list) (hlive : b.id ≠ TOMBSTONE)
     (hno : b.flags.oneshot = false) (hl : st'.list = st.list) (hs : st'.slotIds = st.slotIds) {occ : Nat}
     (hlog : st'.log = Ev.fire b.key occ :: st.log)
     (ht : ∀ b ∈ st.list, b.id = TOMBSTONE → st'.isIter = true ∧ st'.needsDelete = true) : Inv st' := by
   have hla : liveAt st.log b.key := (h.liveIff b.key).1 ⟨b, hb, rfl, hlive⟩
   refine ⟨by rw [hl]; exact h.keysNodup, by rw [hl, hs]; exact h.keysLt, by rw [hl]; exact h.idsUnique,
     by rw [hl]; exact h.idsPos, by rw [hl]; exact h.liveFn, by rw [hl]; exact ht, by rw [hs]; exact h.slotPos, ?_, ?_, ?_, ?_,
-    by rw [hl, hlog]; exact h.order⟩
+    by rw [hl, hlog]; exact h.order, by rw [hr.1, hr.2]; exact h.alive⟩
   · intro e' he' k hk'
     rw [hlog] at he'; rw [hs]
     rcases List.mem_cons.1 he' with rfl | he'
@@ -498,7 +505,7 @@ theorem liveKey_eraseKey_ne {l : List Node} {k k' : Nat} (hne : k' ≠ k) : live
     exact ⟨b, mem_eraseKey.2 ⟨hb, by omega⟩, hk, hlive⟩
 
 /-- Unbinding while no walker runs: the node is unlinked and freed at once. -/
-theorem Inv.of_erase {st st' : St} (h : Inv st) {b : Node} (hb : b ∈ st.list) (hlive : b.id ≠ TOMBSTONE)
+theorem Inv.of_erase {st st' : St} (h : Inv st) (hr : st'.refs = st.refs ∧ st'.dead = st.dead) {b : Node} (hb : b ∈ st.list) (hlive : b.id ≠ TOMBSTONE)
     (hni : st.isIter = false) (hl : st'.list = eraseKey st.list b.key) (hs : st'.slotIds = st.slotIds)
     (hlog : st'.log = Ev.unbindReq b.key :: st.log) : Inv st' := by
   have hnt : ∀ x ∈ st.list, x.id ≠ TOMBSTONE := by
@@ -509,7 +516,7 @@ theorem Inv.of_erase {st st' : St} (h : Inv st) {b : Node} (hb : b ∈ st.list) 
   refine ⟨by rw [hl]; exact nodup_keys_filter _ h.keysNodup, fun x hx => by rw [hs]; exact h.keysLt x (hsub x hx),
     fun x1 h1 x2 h2 => h.idsUnique x1 (hsub x1 h1) x2 (hsub x2 h2), fun x hx => h.idsPos x (hsub x hx),
     fun x hx => h.liveFn x (hsub x hx), fun x hx hxt => absurd hxt (hnt x (hsub x hx)), by rw [hs]; exact h.slotPos, ?_, ?_, ?_, ?_,
-    by rw [hl, hlog]; exact (List.Sublist.map _ List.filter_sublist).trans h.order⟩
+    by rw [hl, hlog]; exact (List.Sublist.map _ List.filter_sublist).trans h.order, by rw [hr.1, hr.2]; exact h.alive⟩
   · intro e' he' k hk'
     rw [hlog] at he'; rw [hs]
     rcases List.mem_cons.1 he' with rfl | he'
@@ -539,13 +546,13 @@ theorem liveKey_sweep {l : List Node} {k : Nat} : liveKey (sweep l) k ↔ liveKe
     exact ⟨b, mem_sweep.2 ⟨hb, hlive⟩, hk, hlive⟩
 
 /-- `cleanup` at the end of the outermost iteration, with the `occEnd` bracket recorded. -/
-theorem Inv.of_sweep {st st' : St} (h : Inv st) (hl : st'.list = sweep st.list) (hs : st'.slotIds = st.slotIds)
+theorem Inv.of_sweep {st st' : St} (h : Inv st) (hr : st'.refs = st.refs ∧ st'.dead = st.dead) (hl : st'.list = sweep st.list) (hs : st'.slotIds = st.slotIds)
     {e : Ev} (hlog : st'.log = e :: st.log) (he : e.key? = none) : Inv st' := by
   have hsub : ∀ x ∈ st'.list, x ∈ st.list ∧ x.id ≠ TOMBSTONE := fun x hx => by rw [hl] at hx; exact mem_sweep.1 hx
   refine ⟨by rw [hl]; exact nodup_keys_filter _ h.keysNodup, fun x hx => by rw [hs]; exact h.keysLt x (hsub x hx).1,
     fun x1 h1 x2 h2 => h.idsUnique x1 (hsub x1 h1).1 x2 (hsub x2 h2).1, fun x hx => h.idsPos x (hsub x hx).1,
     fun x hx => h.liveFn x (hsub x hx).1, fun x hx hxt => absurd hxt (hsub x hx).2, by rw [hs]; exact h.slotPos, ?_, ?_, ?_, ?_,
-    by rw [hl, hlog, bindOrder_cons_of_affects_none _ (affects_none_of_key_none he)]; exact (List.Sublist.map _ List.filter_sublist).trans h.order⟩
+    by rw [hl, hlog, bindOrder_cons_of_affects_none _ (affects_none_of_key_none he)]; exact (List.Sublist.map _ List.filter_sublist).trans h.order, by rw [hr.1, hr.2]; exact h.alive⟩
   · intro e' he' k hk'
     rw [hlog] at he'; rw [hs]
     rcases List.mem_cons.1 he' with rfl | he'
@@ -573,7 +580,7 @@ theorem Inv.of_bind {st : St} (h : Inv st) (ev : Int) (first : Bool) (flags : BF
     simp only [Tickit.Bindings.bindEvent]
     split <;> simp [node, or_comm]
   have hnodeLive : node.id ≠ TOMBSTONE := by simp [node, TOMBSTONE]; omega
-  refine ⟨?_, ?_, ?_, ?_, ?_, ?_, ?_, ?_, ?_, ?_, ?_, ?_⟩
+  refine ⟨?_, ?_, ?_, ?_, ?_, ?_, ?_, ?_, ?_, ?_, ?_, ?_, h.alive⟩
   rotate_right
   · simp only [Tickit.Bindings.bindEvent, bindOrder]
     split
@@ -731,6 +738,8 @@ structure Step (own : Option Nat × Option Nat) (st st' : St) : Prop where
   logExt : ∃ seg, st'.log = seg ++ st.log ∧ ∀ e ∈ seg, EvOcc own st.nextOcc e
   /-- the harness's slot table only grows -/
   slotsExt : ∃ ext, st'.slotIds = st.slotIds ++ ext
+  /-- the owner's reference count is back where it was (no behaviour drops the user's reference) -/
+  life : st'.refs = st.refs ∧ st'.dead = st.dead
 
 theorem Step.mem_keys {own : Option Nat × Option Nat} {st st' : St} (s : Step own st st') (hi : st.isIter = true) {k : Nat}
     (hk : k ∈ keys st.list) : k ∈ keys st'.list := by
@@ -738,7 +747,7 @@ theorem Step.mem_keys {own : Option Nat × Option Nat} {st st' : St} (s : Step o
   rw [h]; simp [hk]
 
 theorem Step.refl (own : Option Nat × Option Nat) (st : St) : Step own st st :=
-  ⟨rfl, fun _ => ⟨[], [], by simp⟩, Nat.le_refl _, ⟨[], rfl, by simp⟩, ⟨[], by simp⟩⟩
+  ⟨rfl, fun _ => ⟨[], [], by simp⟩, Nat.le_refl _, ⟨[], rfl, by simp⟩, ⟨[], by simp⟩, ⟨rfl, rfl⟩⟩
 
 theorem Step.trans {own : Option Nat × Option Nat} {a b c : St} (h1 : Step own a b) (h2 : Step own b c) : Step own a c := by
   obtain ⟨s1, hs1, hf1⟩ := h1.logExt
@@ -746,7 +755,8 @@ theorem Step.trans {own : Option Nat × Option Nat} {a b c : St} (h1 : Step own 
   obtain ⟨e1, he1⟩ := h1.slotsExt
   obtain ⟨e2, he2⟩ := h2.slotsExt
   refine ⟨h2.iter.trans h1.iter, fun hi => ?_, Nat.le_trans h1.occMono h2.occMono,
-    ⟨s2 ++ s1, by rw [hs2, hs1, List.append_assoc], ?_⟩, ⟨e1 ++ e2, by rw [he2, he1, List.append_assoc]⟩⟩
+    ⟨s2 ++ s1, by rw [hs2, hs1, List.append_assoc], ?_⟩, ⟨e1 ++ e2, by rw [he2, he1, List.append_assoc]⟩,
+    ⟨h2.life.1.trans h1.life.1, h2.life.2.trans h1.life.2⟩⟩
   · obtain ⟨P1, A1, hk1⟩ := h1.keysIter hi
     obtain ⟨P2, A2, hk2⟩ := h2.keysIter (h1.iter.trans hi)
     exact ⟨P2 ++ P1, A1 ++ A2, by rw [hk2, hk1]; simp⟩
@@ -758,20 +768,23 @@ theorem Step.trans {own : Option Nat × Option Nat} {a b c : St} (h1 : Step own 
 theorem Step.weaken {own own' : Option Nat × Option Nat} {a b : St} (h : Step own a b)
     (h1 : ∀ o, own.1 = some o → own'.1 = some o) (h2 : ∀ o, own.2 = some o → o = 0 ∨ own'.2 = some o) : Step own' a b := by
   obtain ⟨s, hs, hf⟩ := h.logExt
-  exact ⟨h.iter, h.keysIter, h.occMono, ⟨s, hs, fun e hm => (hf e hm).weaken h1 h2⟩, h.slotsExt⟩
+  exact ⟨h.iter, h.keysIter, h.occMono, ⟨s, hs, fun e hm => (hf e hm).weaken h1 h2⟩, h.slotsExt, h.life⟩
 
 /-- a state change that keeps the keys and the slots and records one event -/
 theorem Step.of_keys {own : Option Nat × Option Nat} {st st' : St} (hi : st'.isIter = st.isIter) (hk : keys st'.list = keys st.list)
     (ho : st.nextOcc ≤ st'.nextOcc) {e : Ev} (hlog : st'.log = e :: st.log)
-    (he : EvOcc own st.nextOcc e) (hs : st'.slotIds = st.slotIds) : Step own st st' :=
+    (he : EvOcc own st.nextOcc e) (hs : st'.slotIds = st.slotIds)
+    (hlife : st'.refs = st.refs ∧ st'.dead = st.dead := by exact ⟨rfl, rfl⟩) : Step own st st' :=
   ⟨hi, fun _ => ⟨[], [], by simp [hk]⟩, ho, ⟨[e], by simp [hlog], fun e' hm => by
-    simp only [List.mem_singleton] at hm; rw [hm]; exact he⟩, ⟨[], by simp [hs]⟩⟩
+    simp only [List.mem_singleton] at hm; rw [hm]; exact he⟩, ⟨[], by simp [hs]⟩, hlife⟩
 
 def NoDestroy (beh : Behaviour) : Prop := ∀ h n, Action.destroy ∉ (beh h n).acts
 
 /-- What a task needs of the state it starts in. -/
 def TaskOk (task : Task) (st : St) : Prop :=
   match task with
+  | .emitter _ _ => True
+  | .unref => False
   | .runEvent _ _ => True
   | .walk _ _ occ cur => st.isIter = true ∧ (∀ k, cur = some k → k ∈ keys st.list) ∧ occ < st.nextOcc
   | .unbindId id => id ≠ TOMBSTONE
@@ -802,7 +815,7 @@ theorem good_runEvent {fuel : Nat} (ih : Good own beh fuel) (wf : Bool) (ev : In
     Post (none, none) st (exec Cfg.repaired own beh (fuel + 1) (.runEvent wf ev) st) := by
   simp only [exec]
   have h1 : Inv { st with isIter := true, nextOcc := st.nextOcc + 1, log := Ev.occBegin st.nextOcc ev wf :: st.log } :=
-    h.of_push rfl rfl rfl rfl (by simp [Ev.key?]) (by simp [EvOk]) (fun b hb ht => ⟨rfl, (h.tombIter b hb ht).2⟩)
+    h.of_push ⟨rfl, rfl⟩ rfl rfl rfl rfl (by simp [Ev.key?]) (by simp [EvOk]) (fun b hb ht => ⟨rfl, (h.tombIter b hb ht).2⟩)
   have hw := ih (.walk wf ev st.nextOcc (firstOf st.list)) _ h1 ⟨rfl, fun k hk => firstOf_mem hk, Nat.lt_succ_self _⟩
   have hfires : ∀ (seg : List Ev), (∀ e ∈ seg, EvOcc (some st.nextOcc, some st.nextOcc) (st.nextOcc + 1) e) →
       ∀ e ∈ Ev.occEnd st.nextOcc :: (seg ++ [Ev.occBegin st.nextOcc ev wf]), EvOcc (none, none) st.nextOcc e := by
@@ -834,19 +847,20 @@ theorem good_runEvent {fuel : Nat} (ih : Good own beh fuel) (wf : Bool) (ev : In
     rw [hres] at hw
     obtain ⟨h2, s2⟩ := hw
     simp only
+    rw [if_neg (show ¬ st2.dead = true by rw [h2.alive.2]; simp)]
     split
     · rename_i hc
       simp only [Bool.and_eq_true, Bool.not_eq_true'] at hc
       obtain ⟨seg, hseg, hfseg⟩ := s2.logExt
-      refine ⟨h2.of_sweep rfl rfl rfl rfl, rfl, fun hi => ?_, Nat.le_trans (Nat.le_succ _) s2.occMono,
-        ⟨Ev.occEnd st.nextOcc :: (seg ++ [Ev.occBegin st.nextOcc ev wf]), by simp [hseg], hfires seg hfseg⟩, s2.slotsExt⟩
+      refine ⟨h2.of_sweep ⟨rfl, rfl⟩ rfl rfl rfl rfl, rfl, fun hi => ?_, Nat.le_trans (Nat.le_succ _) s2.occMono,
+        ⟨Ev.occEnd st.nextOcc :: (seg ++ [Ev.occBegin st.nextOcc ev wf]), by simp [hseg], hfires seg hfseg⟩, s2.slotsExt, s2.life⟩
       rw [hc.1] at hi; cases hi
     · rename_i hc
       simp only [Bool.and_eq_true, Bool.not_eq_true', not_and, Bool.not_eq_true] at hc
       obtain ⟨seg, hseg, hfseg⟩ := s2.logExt
-      refine ⟨h2.of_push rfl rfl rfl rfl (by simp [Ev.key?]) (by simp [EvOk]) ?_, rfl, fun _ => s2.keysIter rfl,
+      refine ⟨h2.of_push ⟨rfl, rfl⟩ rfl rfl rfl rfl (by simp [Ev.key?]) (by simp [EvOk]) ?_, rfl, fun _ => s2.keysIter rfl,
         Nat.le_trans (Nat.le_succ _) s2.occMono,
-        ⟨Ev.occEnd st.nextOcc :: (seg ++ [Ev.occBegin st.nextOcc ev wf]), by simp [hseg], hfires seg hfseg⟩, s2.slotsExt⟩
+        ⟨Ev.occEnd st.nextOcc :: (seg ++ [Ev.occBegin st.nextOcc ev wf]), by simp [hseg], hfires seg hfseg⟩, s2.slotsExt, s2.life⟩
       intro b hb ht
       have hnd := (h2.tombIter b hb ht).2
       refine ⟨?_, hnd⟩
@@ -865,7 +879,7 @@ theorem good_call {fuel : Nat} (hb : NoDestroy beh) (ih : Good own beh fuel) (ke
     simp only [exec]
     have h1 : Inv { st with inv := fun x => if x = hh then st.inv hh + 1 else st.inv x,
                             log := Ev.enter key hh (st.inv hh) fl occ :: st.log } :=
-      h.of_push rfl rfl rfl rfl (by intro k hk; simp only [Ev.key?, Option.some.injEq] at hk; omega) (hev _ _)
+      h.of_push ⟨rfl, rfl⟩ rfl rfl rfl rfl (by intro k hk; simp only [Ev.key?, Option.some.injEq] at hk; omega) (hev _ _)
         (fun b hb' ht => h.tombIter b hb' ht)
     have hacts : TaskOk (.acts key 0 (if fl / EV_DESTROY % 2 = 1 then [] else (beh hh (st.inv hh)).acts))
         { st with inv := fun x => if x = hh then st.inv hh + 1 else st.inv x,
@@ -884,10 +898,10 @@ theorem good_call {fuel : Nat} (hb : NoDestroy beh) (ih : Good own beh fuel) (ke
       obtain ⟨st2, r⟩ := p
       rw [hres] at hw
       obtain ⟨h2, s2⟩ := hw
-      refine ⟨h2.of_push rfl rfl rfl rfl (by simp [Ev.key?]) (by simp [EvOk]) (fun b hb' ht => h2.tombIter b hb' ht), ?_⟩
+      refine ⟨h2.of_push ⟨rfl, rfl⟩ rfl rfl rfl rfl (by simp [Ev.key?]) (by simp [EvOk]) (fun b hb' ht => h2.tombIter b hb' ht), ?_⟩
       obtain ⟨seg, hseg, hfseg⟩ := s2.logExt
       refine ⟨s2.iter, s2.keysIter, s2.occMono,
-        ⟨Ev.leave key occ (beh hh (st.inv hh)).ret :: (seg ++ [Ev.enter key hh (st.inv hh) fl occ]), by simp [St.push, hseg], ?_⟩, s2.slotsExt⟩
+        ⟨Ev.leave key occ (beh hh (st.inv hh)).ret :: (seg ++ [Ev.enter key hh (st.inv hh) fl occ]), by simp [St.push, hseg], ?_⟩, s2.slotsExt, s2.life⟩
       intro e hm
       simp only [List.mem_cons, List.mem_append, List.not_mem_nil, or_false] at hm
       rcases hm with rfl | hm | rfl
@@ -917,10 +931,10 @@ theorem good_walk {fuel : Nat} (ih : Good own beh fuel) (wf : Bool) (ev : Int) (
         cases ho : b.flags.oneshot with
         | true =>
           obtain ⟨id, ev', first, hm, _⟩ := h.boundInfo b hbm
-          exact h.of_kill hbm hlive (f := fun b => { b with id := TOMBSTONE }) (fun a => ⟨rfl, rfl, rfl⟩) (by simp) rfl rfl rfl rfl
+          exact h.of_kill ⟨rfl, rfl⟩ hbm hlive (f := fun b => { b with id := TOMBSTONE }) (fun a => ⟨rfl, rfl, rfl⟩) (by simp) rfl rfl rfl rfl
             (not_liveAt_fire_oneshot h.trace ⟨id, ev', first, hm⟩ ho) ((h.liveIff b.key).1 ⟨b, hbm, rfl, hlive⟩) hit (by simp) rfl
         | false =>
-          exact h.of_fire_keep hbm hlive ho (by simp) rfl rfl (fun x hx hxt => ⟨hit, by simpa using (h.tombIter x hx hxt).2⟩)
+          exact h.of_fire_keep ⟨rfl, rfl⟩ hbm hlive ho (by simp) rfl rfl (fun x hx hxt => ⟨hit, by simpa using (h.tombIter x hx hxt).2⟩)
       have hkeys1 : keys (if b.flags.oneshot = true then modifyKey st.list b.key (fun b => { b with id := TOMBSTONE }) else st.list)
           = keys st.list := by
         split
@@ -986,15 +1000,15 @@ theorem good_unbindId {fuel : Nat} (ih : Good own beh fuel) (id : Int) (st : St)
                 else modifyKey st.list b.key (fun b => { b with id := TOMBSTONE, ev := -1, fn := none }),
         needsDelete := st.isIter || st.needsDelete, log := Ev.unbindReq b.key :: st.log } := by
       cases hi : st.isIter with
-      | false => exact h.of_erase hbm hlive hi (by simp) rfl rfl
+      | false => exact h.of_erase ⟨rfl, rfl⟩ hbm hlive hi (by simp) rfl rfl
       | true =>
-        exact h.of_kill hbm hlive (f := fun b => { b with id := TOMBSTONE, ev := -1, fn := none }) (fun a => ⟨rfl, rfl, rfl⟩)
+        exact h.of_kill ⟨rfl, rfl⟩ hbm hlive (f := fun b => { b with id := TOMBSTONE, ev := -1, fn := none }) (fun a => ⟨rfl, rfl, rfl⟩)
           (by simp) rfl rfl rfl rfl (not_liveAt_req _ _) ((h.liveIff b.key).1 ⟨b, hbm, rfl, hlive⟩) rfl (by simp) rfl
     have s1 : Step (none, none) st { st with
         list := if (!st.isIter) = true then eraseKey st.list b.key
                 else modifyKey st.list b.key (fun b => { b with id := TOMBSTONE, ev := -1, fn := none }),
         needsDelete := st.isIter || st.needsDelete, log := Ev.unbindReq b.key :: st.log } := by
-      refine ⟨rfl, fun hi => ⟨[], [], ?_⟩, Nat.le_refl _, ⟨[Ev.unbindReq b.key], rfl, by simp [EvOcc]⟩, ⟨[], by simp⟩⟩
+      refine ⟨rfl, fun hi => ⟨[], [], ?_⟩, Nat.le_refl _, ⟨[Ev.unbindReq b.key], rfl, by simp [EvOcc]⟩, ⟨[], by simp⟩, ⟨rfl, rfl⟩⟩
       simp only [hi, Bool.not_true, Bool.false_eq_true, if_false]
       have hkk := keys_modifyKey st.list b.key (fun b : Node => { b with id := TOMBSTONE, ev := -1, fn := none }) (fun _ => rfl)
       rw [hkk]; simp
@@ -1038,7 +1052,7 @@ theorem good_acts {fuel : Nat} (ih : Good own beh fuel) (self i : Nat) (as : Lis
     have hrest : ∀ x ∈ rest, x ≠ Action.destroy := fun x hx => hok x (List.mem_cons_of_mem _ hx)
     have ha : a ≠ Action.destroy := hok a (List.mem_cons_self ..)
     have h1 : Inv (st.push (Ev.actBegin i)) :=
-      h.of_push rfl rfl rfl rfl (by simp [Ev.key?]) (by simp [EvOk]) (fun b hb ht => h.tombIter b hb ht)
+      h.of_push ⟨rfl, rfl⟩ rfl rfl rfl rfl (by simp [Ev.key?]) (by simp [EvOk]) (fun b hb ht => h.tombIter b hb ht)
     have s1 : Step (none, none) st (st.push (Ev.actBegin i)) :=
       Step.of_keys rfl rfl (Nat.le_refl _) rfl trivial rfl
     -- whatever the action does, it ends in a good state; then the rest of the list runs
@@ -1046,7 +1060,7 @@ theorem good_acts {fuel : Nat} (ih : Good own beh fuel) (self i : Nat) (as : Lis
         Post (none, none) st (exec Cfg.repaired own beh fuel (.acts self (i + 1) rest) (st2.push Ev.actEnd)) := by
       intro st2 h2 s2
       have h3 : Inv (st2.push Ev.actEnd) :=
-        h2.of_push rfl rfl rfl rfl (by simp [Ev.key?]) (by simp [EvOk]) (fun b hb ht => h2.tombIter b hb ht)
+        h2.of_push ⟨rfl, rfl⟩ rfl rfl rfl rfl (by simp [Ev.key?]) (by simp [EvOk]) (fun b hb ht => h2.tombIter b hb ht)
       have s3 : Step (none, none) st (st2.push Ev.actEnd) :=
         s2.trans (Step.of_keys rfl rfl (Nat.le_refl _) rfl trivial rfl)
       have hw := ih (.acts self (i + 1) rest) _ h3 hrest
@@ -1072,30 +1086,71 @@ theorem good_acts {fuel : Nat} (ih : Good own beh fuel) (self i : Nat) (as : Lis
         obtain ⟨st2, r⟩ := p
         rw [hres] at hw
         exact hcont st2 hw.1 (s1.trans hw.2)
+    have hnd : st.dead = false := h.alive.2
     cases a with
     | bind ev first flags hh =>
-      simp only [exec]
-      refine hcont _ (h1.of_bind ev first flags hh) (s1.trans ⟨rfl, fun _ => ?_, Nat.le_refl _, ⟨[_], rfl, by simp [EvOcc]⟩, ⟨[_], rfl⟩⟩)
+      simp only [exec, hnd, Bool.false_eq_true, if_false]
+      refine hcont _ (h1.of_bind ev first flags hh) (s1.trans ⟨rfl, fun _ => ?_, Nat.le_refl _, ⟨[_], rfl, by simp [EvOcc]⟩, ⟨[_], rfl⟩, ⟨rfl, rfl⟩⟩)
       simp only [bindEvent]
       split
       · exact ⟨[st.slotIds.length], [], by simp [St.push]⟩
       · exact ⟨[], [st.slotIds.length], by simp [St.push]⟩
     | unbind slot =>
-      simp only [exec]
+      simp only [exec, hnd, Bool.false_eq_true, if_false]
       cases hs : (st.push (Ev.actBegin i)).slotIds[slot]? with
       | none => simp only; exact hcont _ h1 s1
       | some id => simp only; exact htask (.unbindId id) rfl (slotIds_ne_tomb h1 hs)
     | unbindSelf =>
-      simp only [exec]
+      simp only [exec, hnd, Bool.false_eq_true, if_false]
       cases hs : (st.push (Ev.actBegin i)).slotIds[self]? with
       | none => simp only; exact hcont _ h1 s1
       | some id => simp only; exact htask (.unbindId id) rfl (slotIds_ne_tomb h1 hs)
     | emit ev =>
-      simp only [exec]
+      simp only [exec, hnd, Bool.false_eq_true, if_false]
       by_cases hc : own.canEmit ev = true
-      · simp only [hc, if_true]; exact htask (.runEvent (own.wf ev) ev) rfl trivial
+      · simp only [hc, if_true]; exact htask (.emitter (own.wf ev) ev) rfl trivial
       · simp only [hc]; exact hcont _ h1 s1
     | destroy => exact absurd rfl ha
+
+theorem good_emitter {fuel : Nat} (ih : Good own beh fuel) (wf : Bool) (ev : Int) (st : St) (h : Inv st) :
+    Post (none, none) st (exec Cfg.repaired own beh (fuel + 1) (.emitter wf ev) st) := by
+  simp only [exec]
+  cases hh : own.holdsRef with
+  | false =>
+    simp only [Bool.false_eq_true, if_false]
+    have hw := ih (.runEvent wf ev) st h trivial
+    cases hres : exec Cfg.repaired own beh fuel (.runEvent wf ev) st with
+    | outOfFuel => simp [Post]
+    | ub w => rw [hres] at hw; exact hw.elim
+    | ok p => obtain ⟨st2, r⟩ := p; rw [hres] at hw; exact hw
+  | true =>
+    simp only [if_true]
+    have h1 : Inv { st with refs := st.refs + 1 } := h.of_refs _ (by omega)
+    have hw := ih (.runEvent wf ev) _ h1 trivial
+    cases hres : exec Cfg.repaired own beh fuel (.runEvent wf ev) { st with refs := st.refs + 1 } with
+    | outOfFuel => simp [Post]
+    | ub w => rw [hres] at hw; exact hw.elim
+    | ok p =>
+      obtain ⟨st2, r⟩ := p
+      rw [hres] at hw
+      obtain ⟨h2, s2⟩ := hw
+      simp only
+      -- the emitter's own reference is dropped again: the count is back where it was, hence not zero
+      have hrefs : st2.refs = st.refs + 1 := s2.life.1
+      have hdead : st2.dead = false := h2.alive.2
+      cases fuel with
+      | zero => simp [exec] at hres
+      | succ f =>
+        have c1 : ¬ ((st2.dead || st2.refs == 0) = true) := by rw [hdead, hrefs]; simp
+        have c2 : ¬ ((st2.refs == 1) = true) := by
+          rw [hrefs]; have := h.alive.1; simp; omega
+        simp only [exec]
+        rw [if_neg c1, if_neg c2]
+        refine ⟨?_, s2.iter, s2.keysIter, s2.occMono, s2.logExt, s2.slotsExt, ?_, s2.life.2⟩
+        · have := h2.of_refs (st2.refs - 1) (by rw [hrefs]; have := h.alive.1; omega)
+          exact this
+        · show st2.refs - 1 = st.refs
+          rw [hrefs]; omega
 
 /-- **Main lemma.**  For every behaviour that never destroys the owner from inside a handler, every task, every
     fuel: the repaired code never dereferences freed memory or a NULL function, and it keeps the invariant. -/
@@ -1106,6 +1161,8 @@ theorem exec_good (hb : NoDestroy beh) : ∀ fuel, Good own beh fuel := by
   | succ fuel ih =>
     intro task st h hok
     cases task with
+    | emitter wf ev => exact good_emitter own beh ih wf ev st h
+    | unref => exact hok.elim
     | runEvent wf ev => exact good_runEvent own beh ih wf ev st h
     | walk wf ev occ cur => exact good_walk own beh ih wf ev occ cur st h hok
     | unbindId id => exact good_unbindId own beh ih id st h hok
@@ -1351,9 +1408,9 @@ theorem Inv.of_unbind {st : St} (h : Inv st) {b : Node} (hbm : b ∈ st.list) (h
               else modifyKey st.list b.key (fun b => { b with id := TOMBSTONE, ev := -1, fn := none }),
       needsDelete := st.isIter || st.needsDelete, log := Ev.unbindReq b.key :: st.log } := by
   cases hi : st.isIter with
-  | false => exact h.of_erase hbm hlive hi (by simp) rfl rfl
+  | false => exact h.of_erase ⟨rfl, rfl⟩ hbm hlive hi (by simp) rfl rfl
   | true =>
-    exact h.of_kill hbm hlive (f := fun b => { b with id := TOMBSTONE, ev := -1, fn := none }) (fun a => ⟨rfl, rfl, rfl⟩)
+    exact h.of_kill ⟨rfl, rfl⟩ hbm hlive (f := fun b => { b with id := TOMBSTONE, ev := -1, fn := none }) (fun a => ⟨rfl, rfl, rfl⟩)
       (by simp) rfl rfl rfl rfl (not_liveAt_req _ _) ((h.liveIff b.key).1 ⟨b, hbm, rfl, hlive⟩) rfl (by simp) rfl
 
 /-- A completed call has recorded the entry first. -/
@@ -1370,7 +1427,7 @@ theorem exec_call_log (hb : NoDestroy beh) {fuel key hh fl occ : Nat} {st st' : 
     simp only [exec] at hex
     have h1 : Inv { st with inv := fun x => if x = hh then st.inv hh + 1 else st.inv x,
                             log := Ev.enter key hh (st.inv hh) fl occ :: st.log } :=
-      h.of_push rfl rfl rfl rfl (by intro k hk; simp only [Ev.key?, Option.some.injEq] at hk; omega) (hev _ _)
+      h.of_push ⟨rfl, rfl⟩ rfl rfl rfl rfl (by intro k hk; simp only [Ev.key?, Option.some.injEq] at hk; omega) (hev _ _)
         (fun b hb' ht => h.tombIter b hb' ht)
     have hacts : TaskOk (.acts key 0 (if fl / EV_DESTROY % 2 = 1 then [] else (beh hh (st.inv hh)).acts))
         { st with inv := fun x => if x = hh then st.inv hh + 1 else st.inv x,
@@ -1479,7 +1536,7 @@ theorem execOp_good (hb : NoDestroy beh) (fuel : Nat) (op : Op) (hop : OpOk op) 
   cases op with
   | bind ev first flags hh =>
     simp only [execOp, PostOp]
-    exact ⟨⟨h.1.of_bind ev first flags hh, h.2⟩, ⟨rfl, fun hi => (by rw [h.2] at hi; cases hi), Nat.le_refl _, ⟨[_], rfl, by simp [EvOcc]⟩, ⟨[_], rfl⟩⟩⟩
+    exact ⟨⟨h.1.of_bind ev first flags hh, h.2⟩, ⟨rfl, fun hi => (by rw [h.2] at hi; cases hi), Nat.le_refl _, ⟨[_], rfl, by simp [EvOcc]⟩, ⟨[_], rfl⟩, ⟨rfl, rfl⟩⟩⟩
   | unbind slot =>
     simp only [execOp]
     cases hs : st.slotIds[slot]? with
@@ -1489,7 +1546,7 @@ theorem execOp_good (hb : NoDestroy beh) (fuel : Nat) (op : Op) (hop : OpOk op) 
   | emit ev =>
     simp only [execOp]
     by_cases hc : own.canEmit ev = true
-    · simp only [hc, if_true]; exact postOp_of_post h.2 (good (.runEvent (own.wf ev) ev) st h.1 trivial)
+    · simp only [hc, if_true]; exact postOp_of_post h.2 (good (.emitter (own.wf ev) ev) st h.1 trivial)
     · simp only [hc]; exact ⟨h, Step.refl _ st⟩
   | destroy => exact absurd rfl hne
 
@@ -1900,7 +1957,7 @@ theorem exec_call_shape (hb : NoDestroy beh) {fuel key hh fl occ : Nat} {st st' 
     simp only [exec] at hex
     have h1 : Inv { st with inv := fun x => if x = hh then st.inv hh + 1 else st.inv x,
                             log := Ev.enter key hh (st.inv hh) fl occ :: st.log } :=
-      h.of_push rfl rfl rfl rfl (by intro k hk; simp only [Ev.key?, Option.some.injEq] at hk; omega) (hev _ _)
+      h.of_push ⟨rfl, rfl⟩ rfl rfl rfl rfl (by intro k hk; simp only [Ev.key?, Option.some.injEq] at hk; omega) (hev _ _)
         (fun b hb' ht => h.tombIter b hb' ht)
     have hacts : TaskOk (.acts key 0 (if fl / EV_DESTROY % 2 = 1 then [] else (beh hh (st.inv hh)).acts))
         { st with inv := fun x => if x = hh then st.inv hh + 1 else st.inv x,
@@ -1989,10 +2046,10 @@ theorem walk_spec (hb : NoDestroy beh) : ∀ (fuel : Nat) (wf : Bool) (ev : Int)
             needsDelete := b.flags.oneshot || st.needsDelete, log := Ev.fire b.key o :: st.log } := by
           cases ho : b.flags.oneshot with
           | true =>
-            exact h.of_kill hbm hlive (f := fun b => { b with id := TOMBSTONE }) (fun a => ⟨rfl, rfl, rfl⟩) (by simp) rfl rfl rfl rfl
+            exact h.of_kill ⟨rfl, rfl⟩ hbm hlive (f := fun b => { b with id := TOMBSTONE }) (fun a => ⟨rfl, rfl, rfl⟩) (by simp) rfl rfl rfl rfl
               (not_liveAt_fire_oneshot h.trace ⟨idb, evb, firstb, hmb⟩ ho) ((h.liveIff b.key).1 ⟨b, hbm, rfl, hlive⟩) hit (by simp) rfl
           | false =>
-            exact h.of_fire_keep hbm hlive ho (by simp) rfl rfl (fun x hx hxt => ⟨hit, by simpa using (h.tombIter x hx hxt).2⟩)
+            exact h.of_fire_keep ⟨rfl, rfl⟩ hbm hlive ho (by simp) rfl rfl (fun x hx hxt => ⟨hit, by simpa using (h.tombIter x hx hxt).2⟩)
         have hkeys1 : keys (if b.flags.oneshot = true then modifyKey st.list b.key (fun b => { b with id := TOMBSTONE }) else st.list)
             = keys st.list := by
           split
@@ -2272,7 +2329,7 @@ theorem runEvent_spec (hb : NoDestroy beh) {fuel : Nat} {wf : Bool} {ev : Int} {
   | succ fuel =>
     simp only [exec] at hex
     have h1 : Inv { st with isIter := true, nextOcc := st.nextOcc + 1, log := Ev.occBegin st.nextOcc ev wf :: st.log } :=
-      h.of_push rfl rfl rfl rfl (by simp [Ev.key?]) (by simp [EvOk]) (fun b hb' ht => ⟨rfl, (h.tombIter b hb' ht).2⟩)
+      h.of_push ⟨rfl, rfl⟩ rfl rfl rfl rfl (by simp [Ev.key?]) (by simp [EvOk]) (fun b hb' ht => ⟨rfl, (h.tombIter b hb' ht).2⟩)
     have hok : TaskOk (.walk wf ev st.nextOcc (firstOf st.list))
         { st with isIter := true, nextOcc := st.nextOcc + 1, log := Ev.occBegin st.nextOcc ev wf :: st.log } :=
       ⟨rfl, fun k hk => firstOf_mem hk, Nat.lt_succ_self _⟩
@@ -2321,6 +2378,7 @@ theorem runEvent_spec (hb : NoDestroy beh) {fuel : Nat} {wf : Bool} {ev : Int} {
         exact (List.nodup_append.1 this).2.1
       rw [hchain] at hsub hcomp
       have hr : r = r2 ∧ st'.log = Ev.occEnd st.nextOcc :: st2.log := by
+        rw [if_neg (show ¬ st2.dead = true by rw [h2.alive.2]; simp)] at hex
         split at hex <;> (injection hex with hex; injection hex with e1 e2; subst e1; exact ⟨e2.symm, rfl⟩)
       refine ⟨seg, A, by rw [hr.2, hseg], hnd, hsub, hsound, ?_, by rw [hr.1]; exact hcl5, by rw [hr.1]; exact hcl6⟩
       intro b hb' hnf
